@@ -112,6 +112,8 @@ resources = [
         rest("batch_partial_update", False), rest("batch_delete", False),
         method("FINDER", "search", False, params=[field("kw", prim("string")), field("lim", prim("int32"), True)], paging=True, ret=item),
         method("FINDER", "withMeta", False, params=[field("c", ref("Color"))], ret=item, metadata=ref("Meta")),
+        # record-typed query parameters next to a plain required one
+        method("FINDER", "crit", False, params=[field("crit", ref("Leaf")), field("other", ref("Leaf"), True), field("lim2", prim("int32"))], ret=item),
         method("ACTION", "ping", False, params=[field("msg", prim("string"))], ret=prim("string")),
         method("ACTION", "touch", True, params=[]),
     ], readOnly=["id"], createOnly=["note"]),
